@@ -224,7 +224,7 @@ struct Gen {
 			bool state = r.chance(0.7);
 			if (state) params.set("value", fresh_value());
 			if (state && r.chance(0.1)) params.set("fetchOnly", JV::boolean(r.chance(0.8)));
-			if (r.chance(p_timeout_param)) params.set("timeout", JV::num(r.chance(0.2) ? 0.0005 : r.chance(0.5) ? 0.25 : 2.0));
+			if (r.chance(p_timeout_param)) params.set("timeout", JV::num(r.chance(0.2) ? 0.0005 : r.chance(0.3) ? 0.25 : r.chance(0.5) ? 2.0 : r.chance(0.5) ? 0.0307 : 1.2345678));
 			if (creds && r.chance(0.8)) {
 				JV acc = JV::obj();
 				auto grp = [&]() { JV a = JV::arr(); int n = (int)r.below(3); for (int i = 0; i < n; i++) a.push(JV::str(r.chance(0.9) ? groups[r.below(groups.size())] : "nosuchgroup")); return a; };
@@ -247,7 +247,7 @@ struct Gen {
 			std::string path = existing_path(k == "set", r.chance(0.1));
 			params.set("path", JV::str(path));
 			if (k == "set") params.set("value", fresh_value()); else if (r.chance(0.7)) params.set("args", fresh_value());
-			if (r.chance(p_timeout_param)) { static const double tv[] = {0.0005, 0.001, 0.01, 0.5, 1.0, 7.5, -1.0, 0.0}; params.set("timeout", JV::num(tv[r.below(8)])); }
+			if (r.chance(p_timeout_param)) { static const double tv[] = {0.0005, 0.001, 0.01, 0.5, 1.0, 7.5, -1.0, 0.0, 0.0019, 0.0575, 1.0015, 0.2507, 1.001}; params.set("timeout", JV::num(tv[r.below(13)])); }
 			else if (r.chance(0.03)) params.set("timeout", JV::str("1"));
 			msg = request(k, params);
 		} else if (k == "fetch") {
@@ -347,6 +347,26 @@ struct Gen {
 		{ Op c = mk("close", ca.c); c.a.set("how", JV::str(r.chance(0.7) ? "fin" : "hup")); c.dt = r.chance(0.5) ? 0 : 1000; p.ops.push_back(c); ca.alive = false; for (auto it = owner_of.begin(); it != owner_of.end();) if (it->second == ca.c) it = owner_of.erase(it); else ++it; }
 		if (r.chance(0.6)) op_connect();
 		{ Op a = mk("advance"); a.dt = 1000000000ULL; p.ops.push_back(a); }
+	}
+	// a caller resets its connection at the instant the owner's answers arrive: the daemon finds the answer for the vanished caller
+	// undeliverable (EPIPE) before it has noticed the hang-up; the owner and the other caller must not be affected
+	void pat_caller_reset_races_reply() {
+		std::vector<int> ix; for (size_t i = 0; i < cl.size(); i++) if (cl[i].alive) ix.push_back((int)i);
+		if (ix.size() < 3) return;
+		int oi = ix[r.below(ix.size())], ci = oi, bi = oi; while (ci == oi) ci = ix[r.below(ix.size())]; while (bi == oi || bi == ci) bi = ix[r.below(ix.size())];
+		GClient &ow = cl[(size_t)oi], &ca = cl[(size_t)ci], &cb = cl[(size_t)bi];
+		p.hdr.put("epipe", JV::boolean(true));
+		std::string path = "race/" + std::to_string(++idctr);
+		uint64_t D = r.chance(0.5) ? 1000000 : 50000;
+		{ Op po = mk("policy", ow.c); po.a.set("mode", JV::str(r.chance(0.8) ? "result" : "error")); po.a.set("delay", JV::num((double)D)); p.ops.push_back(po); }
+		bool state = r.chance(0.5);
+		{ JV pr = JV::obj(); pr.set("path", JV::str(path)); if (state) pr.set("value", JV::num(1)); emit(ow.c, "add", pr); }
+		bool first_b = r.chance(0.5);
+		for (int k = 0; k < 2; k++) { GClient &from = (k == 0) == first_b ? cb : ca; JV pr = JV::obj(); pr.set("path", JV::str(path)); if (state) pr.set("value", fresh_value()); else pr.set("args", fresh_value()); Op o = mk("send", from.c); o.a.set("msg", request(state ? "set" : "call", pr, false)); o.hold = k == 0; p.ops.push_back(o); }
+		{ Op c = mk("close", ca.c); c.a.set("how", JV::str("rst")); c.dt = D; c.hold = true; p.ops.push_back(c); ca.alive = false; for (auto it = owner_of.begin(); it != owner_of.end();) if (it->second == ca.c) it = owner_of.erase(it); else ++it; }
+		{ Op a = mk("advance"); a.dt = 1000; p.ops.push_back(a); }
+		{ JV pr = JV::obj(); emit(cb.c, "info", pr); }
+		{ Op po = mk("policy", ow.c); po.a.set("mode", JV::str("result")); po.a.set("delay", JV::num(0)); p.ops.push_back(po); }
 	}
 	// two requests to a silent owner whose deadlines fall on the same instant: both expiries are harvested in one batch
 	void pat_double_expiry() {
@@ -495,7 +515,7 @@ void swarm_common(Gen &g, const std::string &profile) {
 	if (profile == "c03" || profile == "c14") { w["set"] = 4; w["call"] = 3; w["add"] = 3; w["fetch"] = on(0.3) ? 0.5 : 0; w["change"] = 0.5; w["strayreply"] = 0.8; g.p_timeout_param = 0.4; g.delay_w = {3, 2, 2, 1.5, 1.5, 1.5, 1}; g.dt_w = {4, 2, 2, 1, 1, 1, 0.6, 0.6, 0.6, 0.3}; }
 	if (profile == "c14") { g.p_hold = 0.5 + r.unit() * 0.4; g.p_timeout_param = 0.6; }
 	if (profile == "c01") { w["fetch"] = 3; w["unfetch"] = 1; w["add"] = 4; w["change"] = 4; w["remove"] = 2; w["set"] = 0; w["call"] = 0; }
-	if (profile == "c11") { w["add"] = 3; w["change"] = 4; w["remove"] = 1.5; w["fetch"] = 2; w["unfetch"] = 0.5; w["set"] = 2; w["call"] = 1.5; w["get"] = 0.7; g.p_batch = 0; g.delay_w = {5, 2, 1, 0.3, 0.3, 0.3, 0.3}; }
+	if (profile == "c11" || profile == "c11x") { w["add"] = 3; w["change"] = 4; w["remove"] = 1.5; w["fetch"] = 2; w["unfetch"] = 0.5; w["set"] = 2; w["call"] = 1.5; w["get"] = 0.7; g.p_batch = 0; g.delay_w = {5, 2, 1, 0.3, 0.3, 0.3, 0.3}; }
 	if (profile == "c16") { w["fetch"] = 4; w["get"] = 3; w["unfetch"] = 1; w["add"] = 4; w["change"] = 1.5; w["remove"] = 1.5; w["set"] = 0; w["call"] = 0; w["unknown"] = 0; w["noparams"] = 0; w["strayreply"] = 0; g.p_adv_rule = 0.9; g.p_batch = 0; }
 	if (profile == "c04") { w["add"] = 4; w["remove"] = 2.5; w["change"] = 3; w["set"] = 1.5; w["call"] = 1.5; w["get"] = 1.5; }
 }
@@ -506,6 +526,12 @@ Plan gen_base(const std::string &profile, uint64_t seed, const JV &opts) {
 	swarm_common(g, profile);
 	base_paths(g);
 	Rng &r = g.r;
+	if (profile == "c16" && r.chance(0.5)) {
+		// pairs that differ only in the characters next to the letters in ASCII ('[' vs '{', '_' vs DEL, '@' vs '`'): equal for no matcher, with or without caseInsensitive
+		static const char *pp[][2] = {{"list[0]", "list{0}"}, {"a_b", "a\x7f" "b"}, {"x^y", "x~y"}, {"p\\q", "p|q"}, {"m@n", "m`n"}, {"LIST]", "list}"}};
+		int n = 1 + (int)r.below(3);
+		for (int i = 0; i < n; i++) { size_t k = r.below(6); g.paths.push_back(pp[k][0]); g.paths.push_back(pp[k][1]); }
+	}
 	JV &h = g.p.hdr;
 	h.set("mode", JV::str("exact"));
 	h.set("fill", JV::num((double)r.below(5)));
@@ -536,11 +562,21 @@ Plan gen_base(const std::string &profile, uint64_t seed, const JV &opts) {
 		g.w["set"] = 3; g.w["call"] = 2; g.w["unknown"] = 0.5; g.w["noparams"] = 0.5;
 		if (r.chance(0.5)) h.set("route_may_fail", JV::boolean(true));
 	}
+	// a connection that was reset by its client refuses further writes (EPIPE) until the daemon has noticed the hang-up
+	if ((profile == "c03" || profile == "c05" || profile == "base" || profile == "c14") && r.chance(0.5)) h.set("epipe", JV::boolean(true));
 	bool inject_res = h.getb("route_may_fail");
 	std::set<int> faulty_cs;
-	if (profile == "c11") {
+	if (profile == "c11x") {
+		// memory-safety companion of c11: impaired peers keep adding, changing and removing elements their own (undeliverable) subscriptions match;
+		// what healthy peers are told is not predictable then, so only the ledger, survival, hygiene and the sanitizers judge
+		h.put("mode", JV::str("ledger")); std::string pr = opts.gets("prop", "C11");
+		h.put("memprop", JV::str(pr)); h.put("baseprop", JV::str(pr)); h.put("canary_prop", JV::str(pr)); h.put("ledgerprop", JV::str(pr));
+		g.w["add"] = 6; g.w["remove"] = 2.5;
+	}
+	if (profile == "c11" || profile == "c11x") {
 		// faulty peers connect (and subscribe) first, so that they sit in front of the healthy ones in the daemon's tables
-		h.set("relabel", JV::str("C11")); h.set("memprop", JV::str("C11")); h.set("baseprop", JV::str("C11")); h.set("epipe", JV::boolean(true));
+		if (profile == "c11") { h.set("relabel", JV::str("C11")); h.set("memprop", JV::str("C11")); h.set("baseprop", JV::str("C11")); }
+		h.set("epipe", JV::boolean(true));
 		int nf = 1 + (int)r.below(2);
 		std::vector<Op> later;
 		for (int i = 0; i < nf; i++) {
@@ -592,8 +628,9 @@ Plan gen_base(const std::string &profile, uint64_t seed, const JV &opts) {
 		else if ((profile == "c04" || profile == "c01") && x < 0.26 && i > 1 && g.p.ops.size() < 200) g.pat_collisions();
 		else if ((profile == "c03" || profile == "c05" || profile == "base") && x < 0.262 && i > 1) g.pat_owner_removes_then_caller_leaves();
 		else if ((profile == "c14" || profile == "c03") && x < 0.30 && i > 1) g.pat_double_expiry();
+		else if ((profile == "c03" || profile == "c05" || profile == "c02b") && x < 0.315 && i > 2) g.pat_caller_reset_races_reply();
 		else if (profile == "c08" && x < 0.31 && i > 0) g.pat_rights();
-		else if (profile == "c11" && x < 0.33 && !faulty_cs.empty()) {
+		else if ((profile == "c11" || profile == "c11x") && x < 0.33 && !faulty_cs.empty()) {
 			// a fault on a member of the faulty set, or an aborted connection attempt
 			std::vector<int> fc(faulty_cs.begin(), faulty_cs.end()); int c = fc[r.below(fc.size())];
 			double y = r.unit(); Op o;
@@ -607,6 +644,15 @@ Plan gen_base(const std::string &profile, uint64_t seed, const JV &opts) {
 			g.p.ops.push_back(o);
 		}
 		else if (inject_res && x < 0.27) { Op o = g.mk(r.chance(0.6) ? "timerfail" : "epolladdfail"); static const int errs[] = {24, 23, 12, 28}; o.a.set("errno", JV::num(errs[r.below(4)])); g.p.ops.push_back(o); }
+		else if (profile == "c11x" && x < 0.6 && !faulty_cs.empty()) {
+			// an impaired peer works on elements that its own fetch-all matches
+			std::vector<int> fc(faulty_cs.begin(), faulty_cs.end()); int c = fc[r.below(fc.size())];
+			std::string path = "fx/" + std::to_string(c) + "/" + std::to_string(r.below(4));
+			double y = r.unit(); JV pr = JV::obj(); pr.set("path", JV::str(path));
+			const char *m = y < 0.55 ? "add" : y < 0.8 ? "change" : "remove";
+			if (y < 0.8) pr.set("value", g.fresh_value());
+			Op o = g.mk("send", c); o.a.set("msg", g.request(m, pr, false)); o.dt = g.pick_dt(); o.hold = false; g.p.ops.push_back(o);
+		}
 		else g.op_request();
 	}
 	if (profile == "c11") {
@@ -818,7 +864,14 @@ Plan gen_hostile(const std::string &profile, uint64_t seed, const JV &opts) {
 		GClient &gc = g.cl[ci];
 		if (!gc.alive) continue;
 		double x = r.unit();
-		if (x < 0.05) { Op o = g.mk("close", gc.c); o.a.set("how", JV::str(r.chance(0.6) ? "fin" : r.chance(0.5) ? "hup" : "rst")); o.dt = g.pick_dt(); g.p.ops.push_back(o); gc.alive = false; continue; }
+		if (x < 0.05) { Op o = g.mk("close", gc.c); o.a.set("how", JV::str(r.chance(0.6) ? "fin" : r.chance(0.5) ? "hup" : "rst")); o.dt = g.pick_dt(); if (r.chance(0.4)) o.a.set("epipe_after", JV::num((double)r.below(3))); g.p.ops.push_back(o); gc.alive = false; continue; }
+		if (x < 0.09 && kind[ci] != 1 && (kind[ci] == 0 ? gc.tr == "ws" : upgraded[ci])) {
+			// several pings (or requests) and the end of the connection arrive together; the peer is gone, so the kernel refuses the daemon's writes after the first few
+			std::string b; int n = 2 + (int)r.below(3);
+			for (int k = 0; k < n; k++) b += r.chance(0.7) ? ws_frame(9, std::string(r.below(20), 'p'), true, true, (uint32_t)r.next()) : ws_frame(1, "{\"id\":" + std::to_string(9000 + k) + ",\"method\":\"info\"}", true, true, (uint32_t)r.next());
+			Op o = g.mk("send", gc.c); o.a.set("hex", JV::str(hexenc(b))); o.dt = g.pick_dt(); o.hold = true; g.p.ops.push_back(o);
+			Op c = g.mk("close", gc.c); c.a.set("how", JV::str(r.chance(0.7) ? "fin" : "hup")); c.a.set("epipe_after", JV::num((double)r.below(3))); c.dt = 0; g.p.ops.push_back(c); gc.alive = false; continue;
+		}
 		Op o = g.mk("send", gc.c);
 		if (kind[ci] == 0) {
 			std::string t = h.message_text();
@@ -1341,6 +1394,7 @@ Plan gen_c19(const std::string &profile, uint64_t seed, const JV &opts) {
 		GClient *gc = g.alive_client(); if (!gc) break;
 		double x = r.unit();
 		if (x < 0.04) { Op o = g.mk("close", gc->c); o.a.set("how", JV::str(r.chance(0.7) ? "fin" : "rst")); o.dt = g.pick_dt(); g.p.ops.push_back(o); gc->alive = false; continue; }
+		if (x < 0.08 && i > 0) { Op o = g.mk("c19", gc->c); o.a.set("stray", JV::boolean(true)); o.a.set("hex", JV::str(hexenc("stray-" + std::to_string(i)))); o.dt = g.pick_dt(); g.p.ops.push_back(o); gc->alive = false; continue; }
 		Op o = g.mk("c19", gc->c);
 		std::string m; size_t n;
 		switch (r.below(10)) {
@@ -1349,7 +1403,10 @@ Plan gen_c19(const std::string &profile, uint64_t seed, const JV &opts) {
 		case 2: n = (size_t)maxmsg - 40 - r.below(40); break;
 		default: n = 1 + r.below(r.chance(0.3) ? 400 : 80);
 		}
-		switch (r.below(5)) {
+		// a configuration with room for them: lengths around the switch to the 64-bit length field, for the compressed and for the uncompressed size
+		bool near64k = maxmsg > 66000 && r.chance(0.35);
+		if (near64k) n = r.chance(0.5) ? 65536 - 140 + r.below(160) : 65300 + r.below(400);
+		switch (near64k ? (r.chance(0.8) ? 0 : 4) : r.below(5)) {
 		case 0: for (size_t k = 0; k < n; k++) m += (char)r.below(256); break;                                              // incompressible
 		case 1: { char ch = (char)('a' + r.below(26)); if (r.chance(0.4)) n = 500 + r.below(4000); m.assign(n, ch); break; }    // highly repetitive, may inflate far beyond the message limit
 		case 2: { std::string unit = "{\"path\":\"a/b\",\"event\":\"change\",\"value\":" + std::to_string(r.below(100)) + "}"; if (r.chance(0.3)) n = 300 + r.below(3000); while (m.size() < n) m += unit; m.resize(n); break; }
@@ -1398,6 +1455,8 @@ Plan derive_b(const Plan &a) {
 			if (r.chance(0.5)) o.a.put("rdcap", JV::num((double)(1 + r.below(r.chance(0.5) ? 7 : 90))));
 			if (o.a.gets("tr") == "ws") add_seg(o, r);
 			o.hold = false;   // the order in which peers come into being (accept, WebSocket request line) is part of the preserved order: it decides the order of initial notifications
+			// ... but two connections to the same listening socket may well be queued behind one readiness event: the queue keeps their order
+			if (i + 1 < a.ops.size() && a.ops[i + 1].k == "connect" && a.ops[i + 1].dt == 0 && a.ops[i + 1].a.gets("tr") == o.a.gets("tr") && a.ops[i + 1].a.gets("ip") == o.a.gets("ip") && o.a.gets("tr") != "ws" && r.chance(0.7)) o.hold = true;
 			b.ops.push_back(o);
 			continue;
 		}
@@ -1438,7 +1497,7 @@ namespace {
 
 // ------------------------------------------------------------------ c15: fixed corpus of short scenarios (every request type, both transports, handshake failure, routed requests, timeouts, disconnects, credentials)
 static const char *c15_profiles[] = {"base", "c01", "c03", "c05", "c08", "c12", "c13", "c16", "c14", "c04"};
-int c15_corpus_size() { return 44; }
+int c15_corpus_size() { return 46; }
 static Plan c15_handmade(int which) {
 	Plan p; p.seed = 0xC15000 + (uint64_t)which;
 	JV h = JV::obj(); h.set("mode", JV::str("exact")); h.set("fill", JV::num(which % 5)); JV argv = JV::arr(); argv.push(JV::str("-f")); h.set("argv", argv); h.set("end", JV::str("close")); p.hdr = h;
@@ -1463,6 +1522,24 @@ static Plan c15_handmade(int which) {
 		{ Op po; po.k = "policy"; po.c = 0; po.uid = ++uid; po.a.set("mode", JV::str("never")); p.ops.push_back(po); }
 		{ JV pr = P("m/one"); req(1, "call", pr); }
 		{ Op c; c.k = "close"; c.c = 0; c.uid = ++uid; c.a.set("how", JV::str("fin")); p.ops.push_back(c); }
+	} else if (which == 4 || which == 5) {
+		// everything a connection can do a second time: the earlier name, value, fetch and element are replaced or released on the way
+		conn(0, which == 4 ? "raw" : "ws"); conn(1, which == 4 ? "ws" : "raw");
+		auto cfg = [&](int c, const char *name) { JV pr = JV::obj(); pr.set("name", JV::str(name)); req(c, "config", pr); };
+		cfg(0, "first-name"); cfg(0, "second-and-longer-name"); cfg(1, "n1"); cfg(1, "n2");
+		{ JV a = P("twice/s"); a.set("value", JV::num(1)); req(0, "add", a); }
+		{ JV ch = P("twice/s"); ch.set("value", JV::num(2)); req(0, "change", ch); }
+		{ JV ch = P("twice/s"); JV v = JV::obj(); v.set("obj", JV::arr().push(JV::num(1)).push(JV::str("two"))); ch.set("value", v); req(0, "change", ch); }
+		{ JV f = JV::obj(); f.set("id", JV::str("tw")); req(1, "fetch", f); }
+		{ JV u = JV::obj(); u.set("id", JV::str("tw")); req(1, "unfetch", u); }
+		{ JV f = JV::obj(); f.set("id", JV::str("tw")); JV ru = JV::obj(); ru.set("contains", JV::str("wice")); f.set("path", ru); req(1, "fetch", f); }
+		req(0, "remove", P("twice/s"));
+		{ JV a = P("twice/s"); a.set("value", JV::str("again")); req(0, "add", a); }
+		{ JV st = P("twice/s"); st.set("value", JV::num(7)); req(1, "set", st); }
+		{ JV st = P("twice/s"); st.set("value", JV::num(8)); req(1, "set", st); }
+		{ JV bad = JV::obj(); req(0, "nosuchmethod", bad); }
+		cfg(0, "third");
+		{ Op c; c.k = "close"; c.c = 0; c.uid = ++uid; c.a.set("how", JV::str("fin")); p.ops.push_back(c); }
 	} else {
 		// fetch with every matcher, get with a rule, batch
 		conn(0, "ws"); conn(1, "raw");
@@ -1478,7 +1555,7 @@ Plan c15_scenario(int idx) {
 	if (idx >= 40) {
 		Plan best = c15_handmade(idx - 40);
 		JV h = best.hdr;
-		h.set("canary_prop", JV::str("C15")); h.set("memprop", JV::str("C15")); h.set("baseprop", JV::str("C15")); h.set("relabel", JV::str("C15")); h.set("ledgerprop", JV::str("C15")); h.set("shuffle", JV::num(0));
+		h.set("canary_prop", JV::str("C15")); h.set("memprop", JV::str("C15")); h.set("baseprop", JV::str("C15")); h.set("relabel", JV::str("C15")); h.set("ledgerprop", JV::str("C15")); h.set("shadowprop", JV::str("C15")); h.set("shuffle", JV::num(0));
 		best.hdr = h; best.profile = "c15:" + std::to_string(idx);
 		return best;
 	}
@@ -1497,7 +1574,7 @@ Plan c15_scenario(int idx) {
 	}
 	JV h = JV::obj();
 	for (auto &kv : best.hdr.o) if (kv.first != "canary_prop" && kv.first != "memprop" && kv.first != "baseprop" && kv.first != "relabel" && kv.first != "shuffle") h.set(kv.first, kv.second);
-	h.set("canary_prop", JV::str("C15")); h.set("memprop", JV::str("C15")); h.set("baseprop", JV::str("C15")); h.set("relabel", JV::str("C15")); h.set("ledgerprop", JV::str("C15")); h.set("shuffle", JV::num(0));
+	h.set("canary_prop", JV::str("C15")); h.set("memprop", JV::str("C15")); h.set("baseprop", JV::str("C15")); h.set("relabel", JV::str("C15")); h.set("ledgerprop", JV::str("C15")); h.set("shadowprop", JV::str("C15")); h.set("shuffle", JV::num(0));
 	best.hdr = h; best.profile = "c15:" + std::to_string(idx);
 	return best;
 }
